@@ -1032,9 +1032,20 @@ def rule_lastindex_conditions_agree(ctx, rep, rid: str) -> None:
         sites = [(c, g) for g in methods.values() for c in g.own_nodes() if isinstance(c, ast.Call) and isinstance(c.func, ast.Attribute) and norm(c.func.value) == "self" and c.func.attr == m.name]
         return any(enabled(c, g, env, depth + 1) for c, g in sites) if sites else True
 
+    # the driver and the helpers it calls: a method that CALLS exec (all matches of a global regex for the string
+    # methods) runs another protocol on top of it, and its writes are not exits of a match attempt
+    driver = {x for x in ("exec", "test") if x in methods}
+    grew = True
+    while grew:
+        grew = False
+        for nm in list(driver):
+            for c in methods[nm].own_nodes():
+                if isinstance(c, ast.Call) and isinstance(c.func, ast.Attribute) and norm(c.func.value) == "self" and c.func.attr in methods and c.func.attr not in driver:
+                    driver.add(c.func.attr)
+                    grew = True
     reads, resets, advances = [], [], []
     for m in methods.values():
-        if m.name == "__init__":
+        if m.name == "__init__" or m.name not in driver:
             continue
         for n in m.own_nodes():
             if isinstance(n, ast.Attribute) and n.attr == "lastIndex" and norm(n.value) == "self":
@@ -1101,3 +1112,48 @@ def rule_start_position_inside_subject(ctx, rep, rid: str) -> None:
                 rep.bad(rid, key, f"{m.qual} starts the matcher at `{p}` (taken from lastIndex) without having compared it with len({subj}): for a sticky regex and a lastIndex beyond the end, `$` in multiline mode, \\\\b and \\\\B read the character at that position and the host raises IndexError", f"{m.module.rel}:{c.lineno}")
     if n < 1:
         raise AnalysisError(f"{rid}: no matcher start taken from lastIndex found")
+
+
+# ---- the raw matcher knows nothing of lastIndex and the sticky flag ----------------------------------------------
+RAW_MATCHER_USERS = {
+    "split": "ECMA-262 22.2.6.14 runs a sticky clone of the separator at every position itself and never touches the original's lastIndex",
+}
+
+
+def _prescribed_owner(ctx, f: Func, seen: set) -> Optional[str]:
+    """The native of RAW_MATCHER_USERS that f is, or that every caller of the helper f belongs to."""
+    if f.name in RAW_MATCHER_USERS:
+        return f.name
+    if id(f) in seen or len(seen) > 4:
+        return None
+    callers = {id(cs.func): cs.func for cs in ctx.cg.sites if any(t is f for t in cs.targets)}
+    owners = {_prescribed_owner(ctx, g, seen | {id(f)}) for g in callers.values()}
+    if callers and None not in owners and len(owners) == 1:
+        return owners.pop()
+    return None
+
+
+def rule_driver_not_bypassed(ctx, rep, rid: str) -> None:
+    """The regex package has two levels: the matcher (RegexVM.match/search from a given position) and the driver
+    (RegExp.exec), which reads lastIndex as the start position for g and y, matches a sticky regex only there, and
+    writes lastIndex back.  A native that hands a script's RegExp to the raw matcher gets none of that: the sticky
+    flag is ignored and lastIndex is neither consulted nor updated."""
+    rep.rule(rid, "outside the regex package the raw matcher (an interpreter made by _create_vm, run with match/search from a chosen position) is used only by the natives for which ECMAScript prescribes its own position loop; every other regex-driven native goes through the driver (exec/test), which implements the g and y protocol", floor=1)
+    n = 0
+    for f in ctx.tree.funcs:
+        if isinstance(f.node, ast.Lambda) or f.module.name.startswith("regex"):
+            continue
+        raw = [c for c in f.own_nodes() if isinstance(c, ast.Call) and isinstance(c.func, ast.Attribute) and c.func.attr == "_create_vm"]
+        if not raw:
+            continue
+        n += 1
+        key = f"{f.qual}:raw-matcher"
+        owner = _prescribed_owner(ctx, f, set())
+        if owner is not None:
+            rep.ok(rid, key, {"prescribed": RAW_MATCHER_USERS[owner], "native": owner, "sites": len(raw)})
+        else:
+            rep.bad(rid, key, f"{f.qual} runs a script's RegExp on the raw matcher ({short(raw[0], 40)}): the sticky flag is ignored there (it matches at any position) and lastIndex is neither read nor written, which is what the driver RegExp.exec is for", f"{f.module.rel}:{raw[0].lineno}")
+    drivers = [c for f in ctx.tree.funcs if not isinstance(f.node, ast.Lambda) and f.parent is not None and f.parent.name == "_make_string_method" for c in f.own_nodes() if isinstance(c, ast.Call) and isinstance(c.func, ast.Attribute) and c.func.attr in ("exec", "match_all")]
+    rep.ok(rid, "string-natives:driver-calls", {"count": len(drivers)})
+    if n == 0 and not drivers:
+        raise AnalysisError(f"{rid}: neither raw-matcher nor driver calls found in the natives")
